@@ -1,6 +1,7 @@
 //! C02 — canonical form: equal iff same function; ordered; reduced; hash-consistent.
 
 use crate::engine::*;
+use crate::fun::Fun;
 use crate::ops::{self, Op, Out};
 use crate::plain;
 use crate::tt::TT;
@@ -428,6 +429,109 @@ pub fn check_history_cross(opsv: &[Op], sel: &[u8]) -> Check {
     })
 }
 
+/// Construct a variable id x such that the single-variable diagram var(x) has the SAME 64-bit hash
+/// as `target` (a different diagram). Equal hashes are legitimate for different functions; `==`
+/// must still tell them apart. The construction treats `get_hash` as a black box of the shape
+/// h(x) = rotl((c ^ x) * K, 5) * K (multiplicative hashing, the variable id being the last word
+/// before the false leaf's discriminant 0) and is verified before it is used: if the hash function
+/// is of another shape, no collision is found and the stage reports that instead.
+pub fn colliding_var(target: u64) -> Option<usize> {
+    // the odd multiplier is recovered from two samples is not possible in general; try the
+    // FxHasher constant and fall back to "no collision constructed"
+    const K: u64 = 0x517c_c1b7_2722_0a95;
+    fn inv(k: u64) -> u64 {
+        // Newton iteration for the inverse of an odd number modulo 2^64
+        let mut x = k;
+        for _ in 0..6 {
+            x = x.wrapping_mul(2u64.wrapping_sub(k.wrapping_mul(x)));
+        }
+        x
+    }
+    let kinv = inv(K);
+    let h0 = plain::build(&TT::var(1, 0), &[0usize]).get_hash();
+    // h(x) = rotl((c ^ x) * K, 5) * K  =>  c ^ x = rotr(h * kinv, 5) * kinv
+    let c = h0.wrapping_mul(kinv).rotate_right(5).wrapping_mul(kinv); // x = 0
+    let x = target.wrapping_mul(kinv).rotate_right(5).wrapping_mul(kinv) ^ c;
+    let x = x as usize;
+    let probe: B = Rc::new(BDD::Choice(Rc::new(BDD::True), x, Rc::new(BDD::False)));
+    if probe.get_hash() == target {
+        Some(x)
+    } else {
+        None
+    }
+}
+
+/// two different diagrams with one and the same hash: every claim of C02 must still hold
+pub fn check_collision(target: &crate::fun::Fun) -> Result<bool, Violation> {
+    let case = json!({"kind": "hash-collision", "target": target.to_json()});
+    let v = |m: String| Violation::new(m, case.clone());
+    let tplain = target.plain();
+    let x = match colliding_var(tplain.get_hash()) {
+        Some(x) => x,
+        None => return Ok(false),
+    };
+    if target.ids.contains(&x) {
+        return Ok(false);
+    }
+    guarded(&case.clone(), || {
+        let env: BDDEnv<usize> = BDDEnv::new();
+        let d = target.intern(&env);
+        let vx = env.var(x);
+        if vx.get_hash() != d.get_hash() {
+            return Err(v("HARNESS: constructed collision does not collide".into()));
+        }
+        let mut uni = target.ids_sorted();
+        uni.push(x);
+        uni.sort();
+        let px = uni.iter().position(|u| *u == x).unwrap();
+        let tx = TT::var(uni.len(), px);
+        let td = target.over(&uni);
+        if td == tx {
+            return Ok(());
+        }
+        if vx == d {
+            return Err(v(format!(
+                "var({}) and {} denote different functions (same hash {:#x}) but compare equal",
+                x,
+                plain::render(&d),
+                d.get_hash()
+            )));
+        }
+        for (what, r, want) in [
+            ("var(x)", Rc::clone(&vx), tx.clone()),
+            ("d", Rc::clone(&d), td.clone()),
+            ("and(var(x), d)", env.and(Rc::clone(&vx), Rc::clone(&d)), tx.and(&td)),
+            ("or(d, var(x))", env.or(Rc::clone(&d), Rc::clone(&vx)), td.or(&tx)),
+            ("xor(var(x), d)", env.xor(Rc::clone(&vx), Rc::clone(&d)), tx.xor(&td)),
+            ("not(var(x))", env.not(Rc::clone(&vx)), tx.not()),
+            ("ite(var(x), d, not d)", env.ite(Rc::clone(&vx), Rc::clone(&d), env.not(Rc::clone(&d))), tx.ite(&td, &td.not())),
+        ] {
+            let got = plain::table_usize(&r, &uni).map_err(|e| v(format!("{}: {}", what, e)))?;
+            if got != want {
+                return Err(v(format!(
+                    "{} with x = {} (whose diagram has the same hash as {}): table {} instead of {}",
+                    what,
+                    x,
+                    plain::render(&d),
+                    got.to_hex(),
+                    want.to_hex()
+                )));
+            }
+            canonical(what, &r, &want, &uni, &case)?;
+        }
+        // and the other creation order, in a second environment
+        let env2: BDDEnv<usize> = BDDEnv::new();
+        let vx2 = env2.var(x);
+        let d2 = target.intern(&env2);
+        let t2 = plain::table_usize(&d2, &uni).map_err(|e| v(e))?;
+        if t2 != td || d2 != d || vx2 != vx {
+            return Err(v(format!("creating {} after var({}) yields another diagram", plain::render(&d), x)));
+        }
+        Ok(())
+    })?;
+    Ok(true)
+}
+
 /// evaluate a formula, convert the NamedSymbol diagram with `BDD::<usize>::from`, compare with the
 /// independent canonical diagram over the symbols' ids
 pub fn check_conversion(text: &str) -> Check {
@@ -560,6 +664,32 @@ pub fn run(ctx: &mut Ctx) -> Result<(), Violation> {
     });
     ctx.stage("random-histories-two-envs", false, r)?;
 
+    // constructed hash collisions: for every non-constant function of <= 3 variables a variable id whose
+    // single-variable diagram has the same 64-bit hash
+    let r = par_exhaustive(ctx, 4 + 16 + 256, |i, st| {
+        let f = if i < 4 {
+            Fun::new(TT::from_bits(1, i), vec![1])
+        } else if i < 20 {
+            Fun::new(TT::from_bits(2, i - 4), vec![1, 2])
+        } else {
+            Fun::new(TT::from_bits(3, i - 20), vec![0, 2, 5])
+        };
+        if f.tt.is_const() {
+            return Ok(());
+        }
+        st.eval();
+        if check_collision(&f)? {
+            st.class("hash-collision-constructed-and-checked");
+            if st.nontrivial(f.fingerprint()) {
+                st.nt_sample(|| json!({"kind": "hash-collision", "target": f.to_json()}));
+            }
+        } else {
+            st.class("hash-collision-not-constructible(hash function of another shape)");
+        }
+        Ok(())
+    });
+    ctx.stage("equal-hash-different-function", true, r)?;
+
     // BDD::<usize>::from(named diagram): the converted diagram is the canonical diagram of the same
     // function over the symbols' ids
     let cases = ctx.tier.pick(10_000, 300_000);
@@ -607,6 +737,10 @@ pub fn replay(case: &Value) -> Check {
         }
         Some("history") => match ops::ops_from_json(&case["ops"]) {
             Some(o) => check_history(&o, None),
+            None => Err(Violation::new("unreadable replay case", case.clone())),
+        },
+        Some("hash-collision") => match crate::fun::Fun::from_json(&case["target"]) {
+            Some(f) => check_collision(&f).map(|_| ()),
             None => Err(Violation::new("unreadable replay case", case.clone())),
         },
         Some("conversion") => check_conversion(case["text"].as_str().unwrap_or("true")),
